@@ -116,11 +116,15 @@ func (s *Server) Run(ctx context.Context) error {
 // Shutdown is used to stop the http listener and close the backend store.
 func (s *Server) Shutdown(ctx context.Context) error {
 	s.mu.Lock()
-	defer s.mu.Unlock()
-	if s.httpServer == nil {
+	hs := s.httpServer
+	s.mu.Unlock()
+	if hs == nil {
 		return fmt.Errorf("server is not running")
 	}
-	err := s.httpServer.Shutdown(ctx)
+	// the lock is released while waiting for in-flight requests, they may need it for the rate limit
+	err := hs.Shutdown(ctx)
+	s.mu.Lock()
+	defer s.mu.Unlock()
 	s.httpServer = nil
 	if err != nil {
 		return err
